@@ -277,6 +277,57 @@ def check_doc(case, via_cli=False) -> Res:
     return Res("ok" if not viol else "violations", extra_nontrivial=extra, violations=uniq, transitions=steps)
 
 
+def check_blank(case) -> Res:
+    """A source without any content (empty / blanks / newlines / only an envelope): every projection has no leaf at all - a template,
+    a default META field or a placeholder would be invention."""
+    content, mode, fmt = case
+    r = sl.call("e", content=content, schema="META", mode=mode, format=fmt)
+    out = r.get("output")
+    viol = []
+    cs = dict(blank=content, mode=mode, format=fmt)
+    if isinstance(out, str):
+        try:
+            got, paths = leaves_of_output(fmt, out)
+        except Exception as e:      # noqa: BLE001
+            got, paths = [("unreadable", repr(e))], None
+        found = got if got is not None else [ln for ln in out.splitlines() if "**" in ln or ln.startswith("- ")]
+        if found:
+            viol.append(dict(descriptor=f"blank:{fmt}:invented-content", atoms=[f"{fmt}:blank:invented"], case=cs, observed=f"{out!r}"[:300], expected="no leaf: the source has none"))
+    return Res("ok" if not viol else "invented", nontrivial=(repr(content), mode, fmt, out), violations=viol, transitions=1)
+
+
+def check_md_depth(case) -> Res:
+    """Markdown nesting: a chain of n nested blocks, a leaf in each; the heading of the block at depth k has exactly one '#' more than its
+    parent's, through the tool and the CLI (leaf KEY multisets cannot see a block printed at the wrong depth)."""
+    n, via_cli = case
+    lines = ["===D===", "META:", "  TYPE::T", "---"]
+    for k in range(1, n + 1):
+        lines.append("  " * (k - 1) + f"L{k}:")
+        lines.append("  " * k + f"A{k}::{k}")
+    lines += ["TOP::1", "===END==="]
+    x = "\n".join(lines) + "\n"
+    L = sl.lab()
+    viol = []
+    for mode in ("canonical", "authoring"):
+        if via_cli:
+            f = sl.workfile("md14")
+            with open(f, "w", encoding="utf-8", newline="") as fh:
+                fh.write(x)
+            q = L["runner"].invoke(L["cli"], ["eject", f, "--mode", mode, "--format", "markdown"])
+            out = q.output
+        else:
+            out = sl.call("e", content=x, schema="META", mode=mode, format="markdown").get("output") or ""
+        heads = [(len(ln) - len(ln.lstrip("#")), ln.lstrip("#").strip()) for ln in out.splitlines() if ln.startswith("#")]
+        lv_ = {name: lvl for lvl, name in heads}
+        got = [lv_.get(f"L{k}") for k in range(1, n + 1)]
+        base = got[0] if got and got[0] else None
+        want = [base + i for i in range(n)] if base else None
+        if got != want:
+            viol.append(dict(descriptor=f"markdown:{'cli' if via_cli else 'tool'}:heading-depth-differs-from-nesting", atoms=["markdown:heading-depth"], case=dict(depth=n, mode=mode, cli=via_cli),
+                             observed=f"heading levels of L1..L{n}: {got}", expected=f"{want} (one level per nesting step)"))
+    return Res("ok" if not viol else "depth", nontrivial=(n, via_cli), violations=viol[:1], transitions=2)
+
+
 def check_doc_cli(case):
     return check_doc(case, via_cli=True)
 
@@ -287,11 +338,24 @@ def run(ctx):
     ctx.explore("eject_tool", docs, check_doc, chunk=8)
     cli_docs = [d for d in docs if d[0].startswith("X:")] + [d for d in docs if d[0].startswith(("P:keys-top", "P:falsy"))][:: (2 if ctx.quick else 1)]
     ctx.explore("eject_cli", cli_docs, check_doc_cli, chunk=4)
+    blanks = ["", " ", "\n", "  \n\n", "\n\n\n", "===D===\n===END===\n", "===D===\n", "// only a comment\n"]
+    ctx.explore("blank_documents", [(b, m, f) for b in blanks for m in MODES for f in FORMATS], check_blank, chunk=16)
+    ctx.explore("markdown_depth", [(n, c) for n in range(1, 11) for c in (False, True)], check_md_depth, chunk=2)
     sl.cleanup()
 
 
 def replay(ctx, rp):
     c = rp["case"]
+    if "blank" in c:
+        try:
+            return check_blank((c["blank"], c["mode"], c["format"])).violations
+        finally:
+            sl.cleanup()
+    if "depth" in c:
+        try:
+            return check_md_depth((c["depth"], c["cli"])).violations
+        finally:
+            sl.cleanup()
     try:
         r = check_doc((c["label"], c["doc"]), via_cli=bool(c.get("cli")))
         return [v for v in r.violations if v["descriptor"] == rp.get("descriptor")] or r.violations
